@@ -202,7 +202,7 @@ func runCase(t *testing.T, res *engine.Result, c caseSpec, verbose bool) {
 	rel := c.relevantReadings()
 	decisions := map[string]map[string]bool{}
 	for _, p := range proxies {
-		if c.Split > 0 && p.Kind != "gateway" {
+		if (c.Split > 0 || c.Shape == shapeG2) && p.Kind != "gateway" {
 			// a host defined by several VirtualServices is only defined for gateways
 			continue
 		}
@@ -421,6 +421,9 @@ func decisionKind(d string) string {
 }
 
 func (c caseSpec) shapeKey() string {
+	if c.Shape == shapeG2 {
+		return "G2"
+	}
 	return fmt.Sprintf("%s,svc=%v,bind=%s", shapeNames[c.Shape], c.Svc, bindNames[c.Bind])
 }
 
@@ -432,6 +435,13 @@ func (c caseSpec) checkOrder(res *engine.Result, p proxySpec, l listenerSpec, rc
 	for _, vh := range rc.GetVirtualHosts() {
 		if len(vh.GetRoutes()) == 0 {
 			continue
+		}
+		if p.Kind == "gateway" && c.Shape == shapeG2 {
+			// the rules selected for a virtual host are those of the Gateway serving its domain
+			p.Gateway = c.gatewayFor(strings.ToLower(vh.GetDomains()[0]))
+			if p.Gateway == "" {
+				continue
+			}
 		}
 		// routes grouped by the VirtualService they come from (several only when a host is defined by
 		// several VirtualServices); each group is checked against its own rule order
